@@ -206,7 +206,17 @@ func (c *Ctx) MapLiteralDispatch() map[*ssa.Function][]DispatchEntry {
 			out[fn] = append(out[fn], DispatchEntry{Method: k, Target: t, In: fn, Pos: tb.Instrs[0].Pos()})
 		}
 	}
-	for _, fn := range c.P.LibFns {
+	// (package-level tables are built by the package initialiser, which is not among the library functions proper)
+	scan := append([]*ssa.Function{}, c.P.LibFns...)
+	for path, sp := range c.P.SSAPkg {
+		if !strings.HasPrefix(path, ir.RootPath) {
+			continue
+		}
+		if init := sp.Func("init"); init != nil {
+			scan = append(scan, init)
+		}
+	}
+	for _, fn := range scan {
 		ir.EachInstr(fn, func(_ *ssa.BasicBlock, _ int, in ssa.Instruction) {
 			mu, ok := in.(*ssa.MapUpdate)
 			if !ok {
